@@ -85,4 +85,45 @@ theorem compile_error_provenance (srcs : List Str) :
     · intro b h; cases h
     · intro b off h; rcases h with h | h <;> cases h
 
+/-- every offset recorded in the AST of a parsed text lies in that text (the parser only records positions it has
+    reached, and it never goes beyond the end) -/
+theorem parse_offsets_in_source (s : Str) (stmts : List AStmt) (h : parse s = .ok stmts) :
+    ∀ st ∈ stmts, ∀ off ∈ st.errOffsets, off ≤ s.length :=
+  RG.parse_offsets_in_source s stmts h
+
+/-- **C07.1 located**: the block index of every reported error is a block of the input, and the reported offset lies
+    inside that block's text, so that C07.2 (`offset_located`, and `offset_exact` when the offset is not the end of
+    the text) applies to it -/
+theorem compile_error_in_source (srcs : List Str) :
+    (∀ b, compile srcs = .syntaxError b → b < srcs.length) ∧
+    (∀ b off, compile srcs = .redefined b off → ∃ s, srcs[b]? = some s ∧ off ≤ s.length) ∧
+    (∀ b off, compile srcs = .proportion b off → ∃ s, srcs[b]? = some s ∧ off ≤ s.length) := by
+  obtain ⟨h1, h2⟩ := compile_error_provenance srcs
+  refine ⟨h1, ?_, ?_⟩
+  · intro b off h
+    obtain ⟨s, stmts, hs, hp, st, hst, ho⟩ := h2 b off (Or.inl h)
+    exact ⟨s, hs, parse_offsets_in_source s stmts hp st hst off ho⟩
+  · intro b off h
+    obtain ⟨s, stmts, hs, hp, st, hst, ho⟩ := h2 b off (Or.inr h)
+    exact ⟨s, hs, parse_offsets_in_source s stmts hp st hst off ho⟩
+
+/-- the reported line and column of a located error exist in the block's text -/
+theorem compile_error_located (srcs : List Str) (b off : Nat)
+    (h : compile srcs = .redefined b off ∨ compile srcs = .proportion b off) :
+    ∃ s, srcs[b]? = some s ∧ off ≤ s.length ∧
+      1 ≤ (offsetToLineCol s off).1 ∧ (offsetToLineCol s off).1 ≤ max 1 (splitLinesKeep s).length ∧
+      1 ≤ (offsetToLineCol s off).2 ∧
+      (offsetToLineCol s off).2 ≤ ((splitLinesKeep s)[(offsetToLineCol s off).1 - 1]?.getD []).length + 1 := by
+  obtain ⟨_, h2, h3⟩ := compile_error_in_source srcs
+  obtain ⟨s, hs, hle⟩ : ∃ s, srcs[b]? = some s ∧ off ≤ s.length := by
+    rcases h with h | h
+    · exact h2 b off h
+    · exact h3 b off h
+  exact ⟨s, hs, hle, offset_located s off⟩
+
+/-- non-vacuity: a redefinition in the second block, and a proportion of something that is not a sub recipe -/
+example : compile ["x".toList, "a = f(x)\n a = g(y)".toList] = .redefined 1 10 := by decide +kernel
+example : compile ["f(1/2 of x)".toList] = .proportion 0 2 := by decide +kernel
+example : compile ["f(".toList] = .syntaxError 0 := by decide +kernel
+
 end RG.C07
